@@ -17,6 +17,11 @@ from ..env import _args
 from .talbase import TalCheck
 
 
+def _argl(a) -> list:
+    return [x if isinstance(x, (int, str, type(None))) else repr(x)
+            for x in a]
+
+
 class C13(TalCheck):
     prop = "C13"
     level = "fault_enumeration"
@@ -59,11 +64,42 @@ class C13(TalCheck):
             vs.append({"kind": "output", "sig": "output",
                        "detail": f"rendered {r['out']!r}\n expected "
                                  f"{m['out']!r}"})
+        # what the fallback expression read from ``error``
+        re_, me_ = r.get("err_records", []), m.get("err_records", [])
+        if [(x["type"], _argl(x["args"])) for x in re_] != \
+                [(x["type"], _argl(x["args"])) for x in me_]:
+            vs.append({"kind": "error-variable", "sig": "error-variable",
+                       "detail": f"fallback expressions saw error type/value "
+                                 f"{[(x['type'], x['args']) for x in re_]}, "
+                                 f"expected {[(x['type'], x['args']) for x in me_]}"})
+        else:
+            for x, y in zip(re_, me_):
+                if not y["same_function"] or y["site"] is None:
+                    continue
+                cover.add("error-position-checked")
+                units = [(o["line"], o["col"]) for o in self._units(occ, y["site"])]
+                if (x["lineno"], x["offset"]) not in units:
+                    vs.append({
+                        "kind": "error-position", "sig": "error-position",
+                        "detail": f"error.lineno/offset = ({x['lineno']}, "
+                                  f"{x['offset']}) for a failure of P("
+                                  f"{y['site']}), whose enclosing expressions "
+                                  f"stand at {units}"})
+                    break
         if r["handler"] != m["handler"]:
             vs.append({"kind": "handler", "sig": "handler-calls",
                        "detail": f"on_error_handler calls {r['handler']}, "
                                  f"expected {m['handler']}"})
         return vs
+
+    @staticmethod
+    def _units(occ: list, k: int) -> list:
+        idx = next(i for i, o in enumerate(occ) if o.get("probe") == k)
+        out = []
+        while idx is not None:
+            out.append(occ[idx])
+            idx = occ[idx]["parent"]
+        return out
 
     def evidence(self, agg: dict, tier: str) -> dict:
         return tal_evidence(agg, (
